@@ -1186,4 +1186,3 @@ func checkInterface(i *interpreter, itype *types.Interface, x iface) string {
 	}
 	return "" // ok
 }
-
